@@ -32,6 +32,7 @@ FUNCTIONS = [
     "monkeytype.stubs.update_signature_args / update_signature_return",
     "monkeytype.stubs.build_module_stubs / build_module_stubs_from_traces",
     "monkeytype.stubs.ClassStub.render / ModuleStub.render",
+    "monkeytype.util.get_name_in_module / get_func_fqname (kind and signature of generated functions, per generation)",
 ]
 P = inspect.Parameter
 LONG = "a_parameter_name_long_enough_to_force_wrapping_of_the_signature_"
